@@ -47,7 +47,7 @@ def main():
     rng = random.Random(chk.seed)
     quick = chk.tier == "quick"
     cases, jobs, pyres, records, tail_ok, errors = C.canonical_ops(
-        chk, 200 if quick else 2500, 6 if quick else 1, 3 if quick else 4, rng, want=("encode", "str"), k=2)
+        chk, 200 if quick else 600, 6 if quick else 2, 3 if quick else 4, rng, want=("encode", "str"), k=2)
     C.report_build_errors(chk, cases, errors)
     skipped = {"float": 0, "double_quoted": 0, "greedy_tail": 0}
     for i, vi, e, h, o in records:
